@@ -228,6 +228,7 @@ fn exec(t: &[&str]) -> String {
             }
             format!("seq {}", outs.join(" ; "))
         }
+        ["pkhash", pk] => match PublicKey::from_bytes(&b(pk)) { Ok(k) => ok(&k.hash().to_bytes()), Err(_) => "err".into() },
         ["bip39", entropy, password] => {
             let k = Bip32PrivateKey::from_bip39_entropy(&b(entropy), &b(password));
             [ok(&k.as_bytes()), match Bip32PrivateKey::from_bytes(&k.as_bytes()) { Ok(x) => ok(&x.as_bytes()), Err(_) => "err".into() }].join(" ")
@@ -320,6 +321,7 @@ fn tabulate_into(tab: &mut Tab, t: &[&str]) {
                 tabulate_into(tab, &tv);
             }
         }
+        ["pkhash", pk] => { let k = b(pk); if k.len() == 32 { tab.put(format!("blake2b224/{}", hx(&k)), hx(&prim::blake2b224(&k))); } }
         ["pubderive", xpub, _n, path @ ..] => {
             let mut p = Some(b(xpub));
             if p.as_ref().map(|x| x.len()) != Some(64) { return; }
@@ -629,6 +631,10 @@ fn gen(dir: &str) {
         let depth = r.below(5) as usize; let hard = r.chance(1, 4);
         let path: Vec<String> = (0..depth).map(|_| if hard { idx(&mut r) } else { soft_idx(&mut r) }.to_string()).collect();
         emit(&mut out, format!("pubderive {} {} {}", hx(&xp), depth, path.join(" ")));
+    }
+    for _ in 0..(5 * scale) {
+        let l = *r.pick(&[32usize, 32, 32, 32, 32, 0, 31, 33, 28, 64]); let pk = if r.chance(1, 2) && l == 32 { prim::ed_keypair_pk(&r.bytes(32)) } else { r.bytes(l) };
+        emit(&mut out, format!("pkhash {}", hx(&pk)));
     }
     // --- sequences of calls in this one thread with deliberately related arguments (hidden state between calls) ---
     for _ in 0..(4 * scale) { for s in sequences(&mut r) { emit(&mut out, s); } }
